@@ -30,7 +30,9 @@ fn src(t: &Value) -> String {
 	match t {
 		Value::Array(a) => format!("[{}]", a.iter().map(src).collect::<Vec<_>>().join(", ")),
 		Value::Object(m) => {
-			if m.contains_key("$e") {
+			if let Some(p) = str_src(t) {
+				p
+			} else if m.contains_key("$e") {
 				"error 'x'".to_string()
 			} else if let Some(n) = m.get("$fn") {
 				match n.as_u64().expect("$fn") {
@@ -58,9 +60,11 @@ fn src(t: &Value) -> String {
 									"h" => "::",
 									_ => ":::",
 								};
+								// a name that is a string production becomes a computed field name
+								let name = if f[0].is_string() { f[0].to_string() } else { format!("[{}]", src(&f[0])) };
 								format!(
 									"{}{}{} {}",
-									f[0],
+									name,
 									if f[2].as_bool().expect("plus") { "+" } else { "" },
 									vis,
 									src(&f[3])
@@ -81,6 +85,67 @@ fn src(t: &Value) -> String {
 		}
 		other => other.to_string(),
 	}
+}
+
+/// source text of a string production (see Drv/C13.lean): the same text written so that the
+/// evaluator holds it in different internal representations (flat / ropes)
+fn str_src(t: &Value) -> Option<String> {
+	let m = t.as_object()?;
+	if let Some(parts) = m.get("$cat").and_then(Value::as_array) {
+		let ps: Vec<String> = parts.iter().map(src).collect();
+		let pct = "%s".repeat(ps.len());
+		return Some(match m.get("by").and_then(Value::as_str).unwrap_or("plus") {
+			"format" => format!("std.format(\"{pct}\", [{}])", ps.join(", ")),
+			"pct" => format!("(\"{pct}\" % [{}])", ps.join(", ")),
+			"join" => format!("std.join(\"\", [{}])", ps.join(", ")),
+			_ => format!("({})", ps.join(" + ")),
+		});
+	}
+	if let Some(a) = m.get("$rep").and_then(Value::as_array) {
+		return Some(format!("std.repeat({}, {})", src(&a[0]), a[1]));
+	}
+	if let Some(n) = m.get("$chr") {
+		return Some(format!("std.char({n})"));
+	}
+	if let Some(a) = m.get("$w").and_then(Value::as_array) {
+		let t = src(&a[1]);
+		return Some(match a[0].as_str().expect("wrapper kind") {
+			"toString" => format!("std.toString({t})"),
+			"pct" => format!("(\"%s\" % {t})"),
+			"format" => format!("std.format(\"%s\", [{t}])"),
+			"substr" => format!("(local s = {t}; std.substr(s + \"##\", 0, std.length(s)))"),
+			"slice" => format!("({t})[0:]"),
+			"join" => format!("std.join(\"\", [{t}, \"\"])"),
+			"id" => format!("(function(x) x)({t})"),
+			"local" => format!("(local s = {t}; s)"),
+			"field" => format!("{{f: {t}}}.f"),
+			"elem" => format!("[{t}][0]"),
+			"plusEmpty" => format!("({t} + \"\")"),
+			k => panic!("unknown wrapper {k}"),
+		});
+	}
+	None
+}
+
+/// text of a string production (used only to BUILD inputs: sorting sets, choosing unequal partners)
+fn text_of(t: &Value) -> String {
+	if let Some(s) = t.as_str() {
+		return s.to_string();
+	}
+	let m = t.as_object().expect("string production");
+	if let Some(parts) = m.get("$cat").and_then(Value::as_array) {
+		return parts.iter().map(text_of).collect();
+	}
+	if let Some(a) = m.get("$rep").and_then(Value::as_array) {
+		return text_of(&a[0]).repeat(a[1].as_u64().expect("count") as usize);
+	}
+	if let Some(n) = m.get("$chr") {
+		return char::from_u32(n.as_u64().expect("cp") as u32).expect("char").to_string();
+	}
+	if let Some(a) = m.get("$w").and_then(Value::as_array) {
+		return text_of(&a[1]);
+	}
+	panic!("not a string production: {t}")
 }
 
 /// lazy dump of an implementation value
@@ -144,6 +209,14 @@ fn source(op: &Value) -> String {
 			a[0]
 		),
 		"equalsSame" => format!("local a = {}; std.equals(a, a)", a[0]),
+		"opEq" => format!("({}) == ({})", a[0], a[1]),
+		"opNe" => format!("({}) != ({})", a[0], a[1]),
+		"opLt" => format!("({}) < ({})", a[0], a[1]),
+		"opLe" => format!("({}) <= ({})", a[0], a[1]),
+		"opGt" => format!("({}) > ({})", a[0], a[1]),
+		"opGe" => format!("({}) >= ({})", a[0], a[1]),
+		"opIn" => format!("({}) in ({})", a[0], a[1]),
+		"opIndex" => format!("({})[{}]", a[0], a[1]),
 		_ => format!("std.{fname}({})", a.join(", ")),
 	}
 }
@@ -454,6 +527,391 @@ impl Gen<'_> {
 	}
 }
 
+// ---------------------------------------------------------------------------------------------
+// (S) strings in every internal representation: the SAME text written as a flat literal, as ropes
+// built by `+` with different split points and nesting shapes (a `+` whose result is shorter than
+// 100 bytes is flattened at once, longer ones stay ropes), and as results of other producers
+
+fn cat(parts: Vec<Value>) -> Value {
+	json!({ "$cat": parts })
+}
+fn cat_by(by: &str, parts: Vec<Value>) -> Value {
+	json!({"$cat": parts, "by": by})
+}
+fn wrap(kind: &str, t: Value) -> Value {
+	json!({"$w": [kind, t]})
+}
+fn lit_of(cs: &[char]) -> Value {
+	json!(cs.iter().collect::<String>())
+}
+/// a field whose NAME is a term (string production => computed field name)
+fn fldk(name: &Value, vis: &str, v: Value) -> Value {
+	json!([name, vis, false, v])
+}
+/// literal leaves of `cs` cut at the given char positions
+fn leaves(cs: &[char], cuts: &[usize]) -> Vec<Value> {
+	let mut out = vec![];
+	let mut prev = 0;
+	for c in cuts.iter().copied().chain(std::iter::once(cs.len())) {
+		let c = c.min(cs.len());
+		if c > prev {
+			out.push(lit_of(&cs[prev..c]));
+			prev = c;
+		}
+	}
+	out
+}
+#[derive(Clone, Copy)]
+enum Shape {
+	Left,
+	Right,
+	Balanced,
+}
+fn tree(ls: &[Value], sh: Shape) -> Value {
+	if ls.len() == 1 {
+		return ls[0].clone();
+	}
+	let k = match sh {
+		Shape::Left => ls.len() - 1,
+		Shape::Right => 1,
+		Shape::Balanced => ls.len() / 2,
+	};
+	cat(vec![tree(&ls[..k], sh), tree(&ls[k..], sh)])
+}
+fn random_tree(rng: &mut Rng, ls: &[Value]) -> Value {
+	if ls.len() == 1 {
+		let l = ls[0].clone();
+		return if rng.chance(1, 10) { wrap(*rng.pick(&["toString", "substr", "id", "local"]), l) } else { l };
+	}
+	let k = 1 + rng.below(ls.len() - 1);
+	let a = random_tree(rng, &ls[..k]);
+	let b = random_tree(rng, &ls[k..]);
+	match rng.below(12) {
+		0 => cat_by("format", vec![a, b]),
+		1 => cat_by("join", vec![a, b]),
+		2 => cat_by("pct", vec![a, b]),
+		_ => cat(vec![a, b]),
+	}
+}
+const WRAPPERS: [&str; 11] = ["toString", "pct", "format", "substr", "slice", "join", "id", "local", "field", "elem", "plusEmpty"];
+/// a seeded representation of the text `cs` (at least 2 chars): 0..5 random cuts, random shape
+fn rep_random(cs: &[char], rng: &mut Rng) -> Value {
+	let n = cs.len();
+	let k = rng.below(6);
+	let mut cuts: Vec<usize> = (0..k).map(|_| 1 + rng.below(n - 1)).collect();
+	cuts.sort_unstable();
+	cuts.dedup();
+	let ls = leaves(cs, &cuts);
+	let t = random_tree(rng, &ls);
+	if rng.chance(1, 4) {
+		wrap(*rng.pick(&WRAPPERS), t)
+	} else {
+		t
+	}
+}
+/// the enumerated representations of the text `cs` (at least 30 chars); the first `CORE_REPS`
+/// are the flat literal and the pure `+` ropes
+const CORE_REPS: usize = 17;
+fn reps(cs: &[char], rng: &mut Rng) -> Vec<Value> {
+	use Shape::{Balanced, Left, Right};
+	let n = cs.len();
+	let mut out = vec![lit_of(cs)];
+	for p in [1, n / 2 - 10, n / 2, n / 2 + 10, n - 1, 1 + rng.below(n - 1)] {
+		out.push(tree(&leaves(cs, &[p]), Left));
+	}
+	for sh in [Left, Right] {
+		out.push(tree(&leaves(cs, &[n / 3, 2 * n / 3]), sh));
+		out.push(tree(&leaves(cs, &[n / 4, n / 2]), sh));
+	}
+	for sh in [Left, Right, Balanced] {
+		out.push(tree(&leaves(cs, &[n / 4, n / 2, 3 * n / 4]), sh));
+		out.push(tree(&leaves(cs, &[n / 4 + 3, n / 2 - 5, 3 * n / 4 + 7]), sh));
+	}
+	assert_eq!(out.len(), CORE_REPS);
+	// empty pieces (concat returns the other operand)
+	out.push(cat(vec![json!(""), lit_of(cs)]));
+	out.push(cat(vec![lit_of(&cs[..n / 2]), json!(""), lit_of(&cs[n / 2..])]));
+	// other producers of a two-piece text
+	for by in ["format", "pct", "join"] {
+		out.push(cat_by(by, leaves(cs, &[n / 2])));
+	}
+	// wrappers around the literal and around a rope
+	let rope = tree(&leaves(cs, &[n / 2 + 1]), Left);
+	for k in ["toString", "substr", "id"] {
+		out.push(wrap(k, lit_of(cs)));
+	}
+	for k in WRAPPERS {
+		out.push(wrap(k, rope.clone()));
+	}
+	// std.char leaf; rope of wrapped leaves
+	out.push(cat(vec![json!({"$chr": cs[0] as u32}), lit_of(&cs[1..])]));
+	let l2 = leaves(cs, &[n / 2 - 3]);
+	out.push(cat(vec![wrap("toString", l2[0].clone()), wrap("substr", l2[1].clone())]));
+	out
+}
+/// texts close to `cs` but different: one char changed at the start / at and near the middle (where
+/// the ropes are cut) / at the end, one char fewer or more at either end, first char moved to the end
+fn mutants(cs: &[char]) -> Vec<Vec<char>> {
+	let n = cs.len();
+	let mut out: Vec<Vec<char>> = vec![];
+	for p in [0, n / 2 - 1, n / 2, n / 2 + 10, n - 1] {
+		let mut m = cs.to_vec();
+		m[p] = if m[p] == '#' { '$' } else { '#' };
+		out.push(m);
+	}
+	out.push(cs[..n - 1].to_vec());
+	out.push(cs[1..].to_vec());
+	let mut m = cs.to_vec();
+	m.push('x');
+	out.push(m);
+	let mut m = cs[1..].to_vec();
+	m.push(cs[0]);
+	out.push(m);
+	out.retain(|m| m.as_slice() != cs);
+	out
+}
+fn cycle(unit: &str, n_chars: usize) -> Vec<char> {
+	unit.chars().cycle().take(n_chars).collect()
+}
+/// the fixed texts: byte lengths around and above the rope threshold (100), ASCII and not
+fn string_contents() -> Vec<(bool, Vec<char>)> {
+	let mut out = vec![];
+	// (all pairs of ALL representations?, text)
+	for n in [98usize, 99, 100, 101, 120, 200, 250] {
+		out.push((n == 120, cycle("x", n)));
+	}
+	for n in [100usize, 120, 250] {
+		out.push((false, cycle("abcdefghij", n)));
+	}
+	for n in [49usize, 50, 51, 60] {
+		out.push((false, cycle("é", n))); // 2 bytes per char
+	}
+	out.push((true, cycle("aé😀b", 60))); // 120 bytes
+	out.push((false, cycle("日本語", 34))); // 102 bytes
+	out
+}
+const EQ_OPS: [&str; 9] = ["equals", "opEq", "opLt", "primitiveEquals", "assertEqual", "opNe", "opLe", "opGt", "opGe"];
+
+impl Gen<'_> {
+	/// `a` against `b` through the first `always` operators of EQ_OPS and a seeded 1-in-`den` sample of the rest
+	fn str_ops(&mut self, rng: &mut Rng, a: &Value, b: &Value, always: usize, den: usize) {
+		for (i, f) in EQ_OPS.iter().enumerate() {
+			if i < always || rng.chance(1, den) {
+				self.emit(f, vec![a.clone(), b.clone()], None);
+			}
+		}
+	}
+	/// the same two strings inside arrays / as field values
+	fn str_containers(&mut self, a: &Value, b: &Value) {
+		let pairs = [
+			(json!([a]), json!([b])),
+			(json!([1, a, null]), json!([1, b, null])),
+			(o1(&[("a", "n", a.clone())]), o1(&[("a", "n", b.clone())])),
+			(o1(&[("a", "n", json!([a]))]), o1(&[("a", "n", json!([b]))])),
+			(json!([o1(&[("k", "n", a.clone())])]), json!([o1(&[("k", "n", b.clone())])])),
+			(o1(&[("a", "n", a.clone()), ("h", "h", b.clone())]), o1(&[("a", "n", b.clone())])),
+		];
+		for (x, y) in pairs {
+			for f in ["equals", "opEq", "opNe", "assertEqual"] {
+				self.emit(f, vec![x.clone(), y.clone()], None);
+			}
+		}
+	}
+	/// `k1` as a computed field name, probed with `k2`
+	fn str_keys(&mut self, k1: &Value, k2: &Value) {
+		let o = chain(vec![vec![fldk(k1, "n", json!(1)), fld("b", "h", false, json!(2))]]);
+		let o2 = chain(vec![vec![fldk(k2, "n", json!(1)), fld("b", "h", false, json!(2))]]);
+		let olit = chain(vec![vec![fldk(&json!(text_of(k2)), "n", json!(1))]]);
+		let two = chain(vec![vec![fldk(k1, "n", json!(1))], vec![fldk(k2, "h", json!(2))]]);
+		self.emit("objectHas", vec![o.clone(), k2.clone()], None);
+		self.emit("objectHasAll", vec![o.clone(), k2.clone()], None);
+		self.emit("opIn", vec![k2.clone(), o.clone()], None);
+		self.emit("opIndex", vec![o.clone(), k2.clone()], None);
+		self.emit("get", vec![o.clone(), k2.clone()], None);
+		self.emit("get", vec![o.clone(), k2.clone(), json!(7)], None);
+		self.emit("objectFields", vec![o.clone()], None);
+		self.emit("objectRemoveKey", vec![o.clone(), k2.clone()], None);
+		self.emit("mapWithKey", vec![o.clone()], Some("key"));
+		self.emit("equals", vec![o.clone(), o2.clone()], None);
+		self.emit("opEq", vec![o.clone(), o2], None);
+		self.emit("equals", vec![o.clone(), olit.clone()], None);
+		self.emit("objectHas", vec![olit.clone(), k1.clone()], None);
+		self.emit("opIndex", vec![olit, k1.clone()], None);
+		self.emit("objectFieldsAll", vec![two.clone()], None);
+		self.emit("objectFields", vec![two.clone()], None);
+		self.emit("objectHas", vec![two.clone(), k1.clone()], None);
+		self.emit("get", vec![two, k1.clone(), json!(7), json!(true)], None);
+	}
+
+	fn string_families(&mut self, rng: &mut Rng, thorough: bool) -> Value {
+		let mut counts: BTreeMap<&'static str, usize> = BTreeMap::new();
+		let mut bytes_hist: BTreeMap<usize, usize> = BTreeMap::new();
+		let mut mark = |g: &Gen, last: &mut usize, k: &'static str| {
+			*counts.entry(k).or_default() += g.w.n - *last;
+			*last = g.w.n;
+		};
+		let mut last = self.w.n;
+		for (full, cs) in string_contents() {
+			let text: String = cs.iter().collect();
+			*bytes_hist.entry(text.len()).or_default() += 1;
+			let rs = reps(&cs, rng);
+			// (S1) equal text, every pair of representations
+			let k = if full { rs.len() } else { CORE_REPS };
+			for a in &rs[..k] {
+				for b in &rs[..k] {
+					self.str_ops(rng, a, b, 2, 8);
+				}
+			}
+			// the remaining representations against a seeded choice of the core ones
+			for a in &rs[k..] {
+				for _ in 0..3 {
+					let b = rng.pick(&rs[..CORE_REPS]).clone();
+					self.str_ops(rng, a, &b, 2, 8);
+					self.str_ops(rng, &b, a, 2, 8);
+				}
+			}
+			// uniform texts also through std.repeat
+			if cs.iter().all(|c| *c == cs[0]) && cs.len() > 70 {
+				let unit = json!(cs[0].to_string());
+				let r1 = json!({"$rep": [unit, cs.len()]});
+				let r2 = cat(vec![json!({"$rep": [unit, 60]}), json!({"$rep": [unit, cs.len() - 60]})]);
+				let r3 = cat(vec![json!({"$rep": [unit, cs.len() - 60]}), json!({"$rep": [unit, 60]})]);
+				for a in [&r1, &r2, &r3] {
+					for b in [&r1, &r2, &r3, &rs[0], &rs[3], &rs[4]] {
+						self.str_ops(rng, a, b, 2, 4);
+						self.str_ops(rng, b, a, 2, 4);
+					}
+				}
+			}
+			mark(self, &mut last, "equal_text_pairs");
+			// (S1') texts that differ a little: never equal, ordered by text
+			let n = cs.len();
+			let ms = mutants(&cs);
+			let own = [rs[0].clone(), rs[3].clone(), rs[2].clone(), rs[11].clone()];
+			for m in &ms {
+				let mn = m.len();
+				let theirs = [
+					lit_of(m),
+					tree(&leaves(m, &[n / 2]), Shape::Left),
+					tree(&leaves(m, &[n / 2 + 10]), Shape::Left),
+					tree(&leaves(m, &[mn / 4, mn / 2, 3 * mn / 4]), Shape::Balanced),
+				];
+				for a in &own {
+					for b in &theirs {
+						self.str_ops(rng, a, b, 3, 6);
+						if rng.chance(1, 3) {
+							self.str_ops(rng, b, a, 3, 6);
+						}
+					}
+				}
+			}
+			mark(self, &mut last, "near_text_pairs");
+			// (S2) inside arrays / as field values; (S3) as computed field names
+			for i in 0..11 {
+				let a = rng.pick(&rs).clone();
+				let b = if i < 8 {
+					rng.pick(&rs).clone()
+				} else {
+					let m: Vec<char> = rng.pick(&ms[..]).clone();
+					rep_random(&m, rng)
+				};
+				self.str_containers(&a, &b);
+				if i % 2 == 0 {
+					self.str_keys(&a, &b);
+				}
+			}
+			mark(self, &mut last, "containers_and_keys");
+			// (S4) std.setMember / std.member over a set of near texts in seeded representations
+			let mut texts: Vec<Vec<char>> = ms.clone();
+			texts.push(cs.clone());
+			let mut plus = cs.clone();
+			plus.push('a');
+			texts.push(plus);
+			texts.sort_by_key(|t| t.iter().collect::<String>());
+			texts.dedup();
+			for _ in 0..4 {
+				let keep: Vec<&Vec<char>> = texts.iter().filter(|_| rng.chance(2, 3)).collect();
+				let set = Value::Array(keep.iter().map(|t| rep_random(t, rng)).collect());
+				let mut arr: Vec<Value> = keep.iter().map(|t| rep_random(t, rng)).collect();
+				if arr.len() > 1 {
+					let i = rng.below(arr.len());
+					arr.swap(0, i);
+				}
+				arr.insert(0, json!(1));
+				arr.push(json!([rs[1].clone()]));
+				let arr = Value::Array(arr);
+				for t in &texts {
+					let x = rep_random(t, rng);
+					self.emit("setMember", vec![x.clone(), set.clone()], None);
+					self.emit("member", vec![arr.clone(), x], None);
+				}
+				self.emit("member", vec![arr.clone(), json!([rs[2].clone()])], None);
+			}
+			mark(self, &mut last, "set_member");
+			// (S5) type functions
+			for _ in 0..4 {
+				let a = rng.pick(&rs).clone();
+				self.value_ops(&a);
+			}
+			mark(self, &mut last, "type_functions");
+		}
+		// (S6) seeded random texts, representations and operators
+		let alphabet = ['a', 'b', 'x', 'é', '😀', '日', ' ', '0'];
+		let n_rand = if thorough { 15000 } else { 1000 };
+		for i in 0..n_rand {
+			let unit: String = (0..1 + rng.below(6)).map(|_| *rng.pick(&alphabet)).collect();
+			let target = if rng.chance(1, 2) { 94 + rng.below(13) } else { 100 + rng.below(170) };
+			let mut cs: Vec<char> = vec![];
+			let mut b = 0;
+			for c in unit.chars().cycle() {
+				if b >= target {
+					break;
+				}
+				b += c.len_utf8();
+				cs.push(c);
+			}
+			*bytes_hist.entry(b / 10 * 10).or_default() += 1;
+			let a = rep_random(&cs, rng);
+			let other = match rng.below(4) {
+				0 | 1 => rep_random(&cs, rng),
+				2 => {
+					// two pieces swapped (same length, same characters)
+					let k = 1 + rng.below(cs.len() - 1);
+					let mut m = cs[k..].to_vec();
+					m.extend_from_slice(&cs[..k]);
+					rep_random(&m, rng)
+				}
+				_ => {
+					let ms = mutants_small(&cs, rng);
+					rep_random(&ms, rng)
+				}
+			};
+			match i % 8 {
+				0 => self.str_containers(&a, &other),
+				1 => self.str_keys(&a, &other),
+				_ => self.str_ops(rng, &a, &other, 3, 3),
+			}
+		}
+		mark(self, &mut last, "random");
+		json!({"cases": counts, "text_bytes": bytes_hist, "representations_per_fixed_text": reps(&cycle("x", 120), rng).len()})
+	}
+}
+/// one random small change
+fn mutants_small(cs: &[char], rng: &mut Rng) -> Vec<char> {
+	let mut m = cs.to_vec();
+	match rng.below(3) {
+		0 => {
+			let p = rng.below(m.len());
+			m[p] = if m[p] == '#' { '$' } else { '#' };
+		}
+		1 => {
+			m.pop();
+		}
+		_ => m.push('a'),
+	}
+	m
+}
+
 fn keys_for(o: &Value, rng: &mut Rng, all: bool) -> Vec<String> {
 	let mut keys: Vec<String> = Vec::new();
 	if let Some(layers) = o.get("$o").and_then(Value::as_array) {
@@ -762,16 +1220,20 @@ pub fn run(opts: &Opts) {
 		}
 	}
 
+	// ---- (S) strings in every internal representation ------------------------------------------
+	let strings_meta = g.string_families(&mut rng, thorough);
+
 	let cases = g.w.n;
 	let meta = json!({
 		"engine": "c13",
 		"cases": cases,
-		"rule": "every visibility history (absent/:/::/:::)^3 of one field x all object functions x keys {visible,hidden,absent}; all pairs of 23 fixed targets x 31 fixed patches for mergePatch; all pairs of 55 fixed values for equals/primitiveEquals/assertEqual; xor/xnor over {true,false,null,1,'a'}^2; wrong-typed arguments; seeded random inheritance chains (<=3 layers, <=4 fields, nested depth 2, `+:` on number/array fields, failing thunks in lazy positions) with patches derived from the target",
+		"rule": "every visibility history (absent/:/::/:::)^3 of one field x all object functions x keys {visible,hidden,absent}; all pairs of 23 fixed targets x 31 fixed patches for mergePatch; all pairs of 55 fixed values for equals/primitiveEquals/assertEqual; xor/xnor over {true,false,null,1,'a'}^2; wrong-typed arguments; seeded random inheritance chains (<=3 layers, <=4 fields, nested depth 2, `+:` on number/array fields, failing thunks in lazy positions) with patches derived from the target; STRINGS: 16 fixed texts of 98..250 bytes (ASCII, 2/3/4-byte characters) each as ~40 representations (flat literal; `+` ropes cut at 1, middle-10, middle, middle+10, end-1, random; 3- and 4-piece ropes left-deep / right-deep / balanced; empty pieces; std.format / `%` / std.join / std.repeat / std.char / std.toString / std.substr / slice / identity call / local / field / element producers) compared pairwise through equals, ==, !=, <, <=, >, >=, primitiveEquals, assertEqual; against 9 near texts (one char changed at start / middle / end, one char fewer or more, rotated); inside arrays and object fields; as computed field names probed through objectHas/objectHasAll/in/index/get/objectFields/objectRemoveKey/mapWithKey/equals; std.setMember and std.member over sets of near texts; type functions; seeded random texts over {a,b,x,é,😀,日,space,0}, cuts, shapes, producers and operators",
 		"functions": g.hist,
 		"outcomes": g.outcome,
 		"object_args_by_layer_count": g.layer_hist,
 		"cases_with_hidden_fields": g.with_hidden,
 		"cases_with_failing_thunks": g.with_err_leaf,
+		"strings": strings_meta,
 		"seed": opts.seed,
 	});
 	g.w.finish(meta, &opts.out);
